@@ -693,6 +693,7 @@ type hullCtx struct {
 	diffAnchors bool // also try (p-q)-a style directions
 	idPairs      bool // symbols of unchanged values take part in pair templates
 	localAnchors bool // unchanged (loop-invariant) values serve as anchors even when not global
+	thresholds   []Q  // widening thresholds (constants the program compares against), ascending
 }
 
 func (h *hullCtx) onlyGlobal(l Lin) bool {
@@ -730,7 +731,7 @@ func (h *hullCtx) hull(key int, blk int, ins []*AbsState, widen bool) *AbsState 
 		if strings.HasPrefix(k, "$") {
 			continue // condition flags and other pseudo variables do not survive a merge
 		}
-		if n == len(ins) && (live == nil || live[k]) {
+		if n == len(ins) && (live == nil || live[k] || strings.HasPrefix(k, "fld:")) {
 			names = append(names, k)
 		}
 	}
@@ -919,9 +920,23 @@ func (h *hullCtx) hull(key int, blk int, ins []*AbsState, widen bool) *AbsState 
 		case cur[i].Sign() <= 0:
 			hd.bound[i] = qi(0) // threshold: weak order is kept
 		default:
-			hd.dropped[i] = true
-			if debugDrop != nil {
-				debugDrop(key, hd, i, "widened "+cur[i].String(), nil)
+			// widening with thresholds: the smallest constant the program compares against
+			// that covers the new bound (single-symbol directions only)
+			done := false
+			if len(hd.dirs[i].t) == 1 {
+				for _, t := range h.thresholds {
+					if t.Cmp(cur[i]) >= 0 {
+						hd.bound[i] = t
+						done = true
+						break
+					}
+				}
+			}
+			if !done {
+				hd.dropped[i] = true
+				if debugDrop != nil {
+					debugDrop(key, hd, i, "widened "+cur[i].String(), nil)
+				}
 			}
 		}
 	}
